@@ -4,6 +4,7 @@ C03 — attribute, index and slice edits behave like edits to a bound-argument l
 Model: `Model/ArgStore.lean` (mirror of config.py / signatures.py). Helper lemmas:
 `Lemmas/Dict.lean`, `Lemmas/View.lean`, `Lemmas/Ops.lean`, `Lemmas/History.lean`.
 -/
+import FiddleModel.Lemmas.SliceBounds
 import FiddleModel.Lemmas.View
 import FiddleModel.Lemmas.History
 import FiddleModel.Lemmas.ViewSet
@@ -193,6 +194,28 @@ theorem C03_setslice_is_list_slice_assignment (s : Sig) (c c' : Cfg) (k : Cfg.Sl
     have h1 := List.of_mem_zip hiv
     exact ⟨hv iv.2 h1.2, hidx iv.1 h1.1⟩
   · simp [hl] at h
+
+/-- The same with the hypothesis one can read off a signature: every slot of the view belongs to
+    a positional parameter. That the slice only selects positions inside the list is CPython's
+    `slice.indices` + `range` arithmetic (`Py.rangeList_bounds`). -/
+theorem C03_setslice_is_list_slice_assignment_in_view (s : Sig) (c c' : Cfg) (k : Cfg.SliceK)
+    (vals : List Val) (wf : ViewWF s) (hvp : s.vpStart = none) (hv : ∀ v ∈ vals, ∀ ts j, v ≠ .tv ts j)
+    (hpos : ∀ m, m < (s.allPositional c.args).length → PosUpTo s m)
+    (h : c.setSlice s k vals = .ok c') :
+    ∃ a b st, Py.sliceIndices (Cfg.resolveSlice s k) (s.allPositional c.args).length = some (a, b, st) ∧
+      (Py.rangeList a b st).length = vals.length ∧
+      s.allPositional c'.args =
+        ((Py.rangeList a b st).zip vals).foldl (fun l (iv : Int × Val) => l.set iv.1.toNat iv.2)
+          (s.allPositional c.args) := by
+  cases hsl : Py.sliceIndices (Cfg.resolveSlice s k) (s.allPositional c.args).length with
+  | none => unfold Cfg.setSlice at h; simp [hsl] at h
+  | some t =>
+    obtain ⟨a, b, st⟩ := t
+    refine ⟨a, b, st, rfl, C03_setslice_is_list_slice_assignment s c c' k vals wf hvp hv a b st hsl ?_ h⟩
+    intro i hi
+    obtain ⟨h0, hlt⟩ := Py.rangeList_bounds _ _ a b st hsl i hi
+    refine ⟨i.toNat, (Int.toNat_of_nonneg h0).symm, hpos i.toNat ?_⟩
+    omega
 
 /-! ### Attribute edits behave like a dict restricted to the signature -/
 
